@@ -65,6 +65,8 @@ class Universe:
         forms["locallvl"] = ksi.build_sig(rng, root3, level=level3, nchains=2, time=cs.T, anchor="auth", kinds=("imprint", "legacy"))
         self.local["locallvl"] = (ksi.aggr_chain_tlv(cs.T, [ksi.shape_index(l3)], leaf3, 1, l3), leaf3, 3)
         self.bytes = {k: v.tlv() for k, v in forms.items()}
+        # a legacy signature (RFC 3161 record before the first aggregation chain), internally consistent
+        self.bytes["legacy"] = sigcase.realize(dict(nch=2, cal=True, anchor="auth", pads=[], viol=[], doc="absent", level="none", rfc=True, epoch="after"), rng)["sig"]
         self.bytes["nonmin"] = nonminimal(self.bytes["pub"])
         cs.e = dict(c04_good(), up="given", upTime="atSigPub", pfc=dict(atSig="match", later="true"))
         self.userpub = cs.user_pub(); self.pf = cs.pub_file()
